@@ -146,6 +146,8 @@ type Exec struct {
 	closures  map[string]*closureInfo
 	externTypes map[string][]types.Type
 	callOrd   map[string]int
+	reveal    map[string]bool
+	alloc0    string
 	curFn     string
 }
 
@@ -177,6 +179,7 @@ type Obligation struct {
 	Goal    string
 	Taint   bool
 	Pos     string
+	Cover   bool   // reachability query: the path condition itself must not be unsat
 	Result  string // unsat, sat, unknown, timeout
 	Backend string
 	Seconds float64
@@ -224,8 +227,57 @@ func (x *Exec) heap(st *State, name, sort string) string {
 	if strings.HasPrefix(name, "G_") {
 		x.globalInit(name, init)
 	}
+	x.closedness(name, init)
 	st.heaps[name] = init
 	return init
+}
+
+// closedness: the heap a function starts in holds no reference to memory allocated later
+// (every reference stored in it is below the entry allocation frontier).
+func (x *Exec) closedness(name, init string) {
+	hi, ok := x.C.heapVal[name]
+	if !ok || x.alloc0 == "" {
+		return
+	}
+	var sel, vars string
+	if hi.dims == 1 {
+		sel = fmt.Sprintf("(select %s r)", init)
+		vars = "(r Int)"
+	} else {
+		ks := "Int"
+		if hi.key != nil {
+			ks = x.C.sortOf(hi.key)
+		}
+		sel = fmt.Sprintf("(select (select %s r) k)", init)
+		vars = fmt.Sprintf("(r Int) (k %s)", ks)
+	}
+	c := x.closedTerm(hi.t, sel, 3)
+	if c == "true" {
+		return
+	}
+	x.C.decl(fmt.Sprintf("(assert (forall (%s) (! %s :pattern (%s))))", vars, c, sel))
+}
+
+func (x *Exec) closedTerm(t types.Type, term string, depth int) string {
+	if isTimeType(t) || isByteSlice(t) {
+		return "true"
+	}
+	switch u := t.Underlying().(type) {
+	case *types.Slice:
+		return fmt.Sprintf("(< (s_base %s) %s)", term, x.alloc0)
+	case *types.Pointer, *types.Map, *types.Chan, *types.Signature:
+		return fmt.Sprintf("(< %s %s)", term, x.alloc0)
+	case *types.Struct:
+		if depth <= 0 {
+			return "true"
+		}
+		var cs []string
+		for i := 0; i < u.NumFields(); i++ {
+			cs = append(cs, x.closedTerm(u.Field(i).Type(), fmt.Sprintf("(%s %s)", x.C.selName(t, i), term), depth-1))
+		}
+		return and(cs...)
+	}
+	return "true"
 }
 
 func (x *Exec) setHeap(st *State, name, sort, term string) {
